@@ -333,6 +333,12 @@ func TestPropMatrixInterpolation(t *testing.T) {
 			for i := 0; i < n; i++ {
 				step.RemainingFields[c.keyStr("remk", i)] = c.value(1, true)
 			}
+			// the attributes real pipelines carry in these unknown fields, under their own names
+			for _, attr := range []string{"depends_on", "agents", "retry", "artifact_paths", "timeout_in_minutes", "concurrency_group", "if", "branches", "soft_fail", "notify", "priority", "parallelism", "allow_dependency_failure", "skip", "type"} {
+				if rapid.IntRange(0, 7).Draw(t, "attr") == 0 {
+					step.RemainingFields[attr] = c.value(1, true)
+				}
+			}
 		}
 		if rapid.Bool().Draw(t, "hassig") {
 			step.Signature = &pipeline.Signature{Algorithm: c.str("alg"), SignedFields: []string{c.str("sf")}, Value: c.str("sigval")}
